@@ -5,7 +5,7 @@ def run(facts, rep, tier):
     a = router.analyse(facts, rep, 'C11')
     observer.emit(facts, rep, ['CR.1', 'CR.2', 'CR.3', 'CR.4'], {'CR.1': 8, 'CR.2': 4, 'CR.3': 4, 'CR.4': 4}, text=router.RULE_TEXT, res=a.res)
     # CR.5: the Resource it relies on really excludes writers (the C01 rule set)
-    resource.emit(facts, rep, 'C11', ['RES.1', 'RES.2a', 'RES.3', 'RES.4', 'RES.5', 'RES.6', 'RES.8x', 'RES.9', 'RES.11', 'RES.13', 'RES.15a'],
+    resource.emit(facts, rep, 'C11', ['RES.1', 'RES.2a', 'RES.3', 'RES.4', 'RES.5', 'RES.6', 'RES.8x', 'RES.9', 'RES.11', 'RES.13', 'RES.15a', 'RES.16'],
                   {'RES.1': 5, 'RES.2a': 3, 'RES.3': 8, 'RES.4': 4, 'RES.5': 6, 'RES.6': 4, 'RES.8x': 8, 'RES.9': 1, 'RES.11': 8, 'RES.13': 8, 'RES.15a': 2})
     rep.count('accesses_under_router_roots', getattr(a, 'n_csr_access', 0))
     rep.assume('big-lock argument: writers exclusive, readers effect-free => every history is equivalent to a sequential one; once unsubscribe() returned, the WriteLock it held orders it before every later delivery')
